@@ -195,7 +195,7 @@ func init() { families["grow"] = func() hx.Family { return &growFam{} } }
 
 func (f *growFam) Gen(r *hx.Run) {
 	r.Rule("submission histories of up to 12 steps on a real ledger with 4-7 validators and real signatures: honest successors, mutants of honest successors (height+1, stale height with other content, unknown parent, parent = tip-1, equal / earlier timestamp, flipped / truncated / zero block root, wrong state root, missing signatures), stale re-submissions, header-first delivery, and a signed fork at the tip, through AddBlock and ExecuteBlock+SubmitBlock; distinct = (action kind, path, verdict)")
-	hist := r.Pick(120, 6000)
+	hist := r.Pick(100, 6000)
 	for c := 0; c < hist; c++ {
 		r.Case(fmt.Sprintf("grow-%d", c))
 		g := &chainGen{r: r, w: &f.world}
